@@ -424,6 +424,11 @@ class Field(UniqueMixin, metaclass=FieldMeta):
             return field_by_name.get(name)
 
         if instance is not None and self._name not in instance.__dict__:
+            # a field explicitly set to None (_enable_undefined_value) reads None, not the field's default
+            if getattr(instance.__class__, ENABLE_UNDEFINED, False) and self._name in getattr(
+                    instance, "_none_fields", []
+            ):
+                return None
             default_value = (
                 self._default()
                 if callable(self._default)
